@@ -197,7 +197,7 @@ func init() {
 	}
 	Props["C14"] = &PropDef{
 		ID:       "C14",
-		Profile:  &Profile{Name: "typed", W: with(obsW, "obsNew", 4, "obsReg", 4, "query", 10, "filterNew", 6, "addBatch", 4, "removeBatch", 4, "exchangeBatch", 4, "setRelBatch", 4, "newBatch", 6, "scenario", 8, "batchCall", 3, "qOpen", 4, "qNext", 5, "qClose", 5), MaxEnts: 40, MinOps: 10, MaxOps: 100, RelBias: 30, ObsPrefix: 2, OpenQ: true, MaxOpenQ: 3},
+		Profile:  &Profile{Name: "typed", W: with(obsW, "obsNew", 4, "obsReg", 4, "query", 10, "filterNew", 6, "addBatch", 4, "removeBatch", 4, "exchangeBatch", 4, "setRelBatch", 4, "newBatch", 6, "scenario", 8, "batchCall", 3, "qOpen", 4, "qNext", 5, "qClose", 5, "reset", 1, "filterReg", 5), MaxEnts: 40, MinOps: 10, MaxOps: 100, RelBias: 30, ObsPrefix: 2, OpenQ: true, MaxOpenQ: 3},
 		Policies: []Policy{{}, {ForceUnsafe: true}},
 		Opt:      Options{DeepEvery: 4, Events: true},
 		Rule: genNote + "backend B0 executes every op through the drawn typed variant (Map, Map1-12, Exchange1-8, Observer1-4; Filter0-8/Query0-8 on both), backend B1 the same op through the ID-based API with the same component list; " +
